@@ -29,8 +29,9 @@ def run_algebra(case):
     W = sum(P.values())
     names = case["names"]
     T = len(names)
-    jdd = {k: w / W for k, w in P.items()}
-    tr = {"kind": "algebra", "case": case, "P": [{"k": list(k), "w": w} for k, w in P.items()], "names": names, "raised": "",
+    raw = case.get("scale") == "raw"          # un-normalised weights: excess distributions and the inversion are scale invariant
+    jdd = {k: (float(w) if raw else w / W) for k, w in P.items()}
+    tr = {"kind": "algebra", "case": case, "check_mean": not raw, "P": [{"k": list(k), "w": w} for k, w in P.items()], "names": names, "raised": "",
           "excess": [[] for _ in names], "mean": [{"n": 0, "ok": False, "D": 1} for _ in names], "inv_raised": "", "inv": []}
     try:
         means = AverageJointDegreeFromJDD.get_average_joint_degrees(jdd)
@@ -123,7 +124,8 @@ def cases(chk):
                         continue
                     for names in NAMELISTS[T]:
                         cs.append({"kind": "algebra", "P": [[list(k), w] for k, w in zip(keys, wts)], "names": names,
-                                   "dict_order": "reversed" if len(cs) % 2 else "names"})
+                                   "dict_order": "reversed" if len(cs) % 2 else "names",
+                                   "scale": "raw" if len(cs) % 5 == 3 else "norm"})
     for i in range(3000 if thorough else 60):       # arbitrary symmetric or asymmetric integer matrices
         T = rng.choice([1, 2, 3])
         names = rng.choice(NAMELISTS[T])
